@@ -14,7 +14,7 @@ fn v4(ip: Ip) -> [u8; 4] {
 }
 
 pub fn run(rep: &mut Report, thorough: bool) {
-    rep.rule = "sweeps (full Cartesian products of listed field domains) of ARP / ICMPv4 / ICMPv6 messages, each judged by the reference model: expected reply field by field or silence; a class is the model's outcome class of a frame".into();
+    rep.rule = "sweeps (full Cartesian products of listed field domains) of ARP / ICMPv4 / ICMPv6 messages, each judged by the reference model: expected reply field by field or silence; a class is the model's outcome class of a frame; ADDED LATER: ND source-address alphabet incl. '::', link-layer trailers (bytes after the IP datagram) for echo / ND / ARP, depth-2 pair histories, all four list combinations".into();
     rep.assumptions = vec![
         "ARP requests whose hardware/protocol type or address lengths are not Ethernet/IPv4 are abstained on".into(),
         "ND-NS with malformed option TLVs are abstained on".into(),
@@ -111,6 +111,10 @@ pub fn run(rep: &mut Report, thorough: bool) {
             (Ip::parse("ff02::1:ff00:1"), [0x33, 0x33, 0xff, 0, 0, 1]),
             (Ip::parse("ff02::1:ffab:cdef"), [0x33, 0x33, 0xff, 0xab, 0xcd, 0xef]),
             (Ip::parse("ff02::1"), [0x33, 0x33, 0, 0, 0, 1]),
+            // unicast destinations other than the target: another handled address, a foreign one
+            (srv6b(), MAC_SRV),
+            (Ip::parse("2001:db8::2"), MAC_SRV),
+            (Ip::parse("fe80::2"), MAC_SRV),
         ];
         let srcs6: Vec<Ip> = vec![cli6(), Ip::parse("::"), Ip::parse("fe80::1"), Ip::parse("::1"), Ip::parse("ff02::1"), Ip::parse("::ffff:10.0.0.9"), srv6(), cli6b()];
         let dims = [tg.len() as u64, opts.len() as u64, 3, dsts.len() as u64, srcs6.len() as u64];
